@@ -21,6 +21,7 @@ const char* W_CAT(slot_file, SLOT)() { return __FILE__; }
 #define W_SEQ0
 #define W_SEQ1 .IN_SEQUENCE(wseq(s.seq[0]))
 #define W_SEQ2 .IN_SEQUENCE(wseq(s.seq[0]), wseq(s.seq[1]))
+#define W_SEQ3 .IN_SEQUENCE(wseq(s.seq[0]), wseq(s.seq[1]), wseq(s.seq[2]))
 #define W_RET .RETURN(wret(eid))
 #define W_THR .THROW(wthrow(eid))
 #define W_NONE
@@ -37,12 +38,14 @@ const char* W_CAT(slot_file, SLOT)() { return __FILE__; }
 #endif
 
 #define W_FORMS(FN, CALL, WITHC, TERM0)               \
-  case FN * 6 + 0: W_MK(W_OBJ2(SLOT), CALL, W_SEQ0, WITHC, TERM0);  \
-  case FN * 6 + 1: W_MK(W_OBJ2(SLOT), CALL, W_SEQ0, WITHC, W_THR);  \
-  case FN * 6 + 2: W_MK(W_OBJ2(SLOT), CALL, W_SEQ1, WITHC, TERM0);  \
-  case FN * 6 + 3: W_MK(W_OBJ2(SLOT), CALL, W_SEQ1, WITHC, W_THR);  \
-  case FN * 6 + 4: W_MK(W_OBJ2(SLOT), CALL, W_SEQ2, WITHC, TERM0);  \
-  case FN * 6 + 5: W_MK(W_OBJ2(SLOT), CALL, W_SEQ2, WITHC, W_THR);
+  case FN * 8 + 6: W_MK(W_OBJ2(SLOT), CALL, W_SEQ3, WITHC, TERM0);  \
+  case FN * 8 + 7: W_MK(W_OBJ2(SLOT), CALL, W_SEQ3, WITHC, W_THR);  \
+  case FN * 8 + 0: W_MK(W_OBJ2(SLOT), CALL, W_SEQ0, WITHC, TERM0);  \
+  case FN * 8 + 1: W_MK(W_OBJ2(SLOT), CALL, W_SEQ0, WITHC, W_THR);  \
+  case FN * 8 + 2: W_MK(W_OBJ2(SLOT), CALL, W_SEQ1, WITHC, TERM0);  \
+  case FN * 8 + 3: W_MK(W_OBJ2(SLOT), CALL, W_SEQ1, WITHC, W_THR);  \
+  case FN * 8 + 4: W_MK(W_OBJ2(SLOT), CALL, W_SEQ2, WITHC, TERM0);  \
+  case FN * 8 + 5: W_MK(W_OBJ2(SLOT), CALL, W_SEQ2, WITHC, W_THR);
 
 namespace {
 template <class M>
@@ -50,8 +53,8 @@ Created create_impl(M& mk, const Spec& s) {
   const int eid = s.eid;
   const std::size_t lo = static_cast<std::size_t>(s.lo);
   const std::size_t hi = s.hi == INF ? ~static_cast<std::size_t>(0) : static_cast<std::size_t>(s.hi);
-  switch (s.func * 6 + s.nseq * 2 + s.term) {
-    // each W_FORMS expands on ONE line: all six forms of a function share the line, the
+  switch (s.func * 8 + s.nseq * 2 + s.term) {
+    // each W_FORMS expands on ONE line: all eight forms of a function share the line, the
     // expectation text distinguishes functions; (file,line) -> (slot, function)
     W_FORMS(F_f, f(dm_int(s.m[0])), W_WITHS, W_RET)
     W_FORMS(F_h, h(dm_int(s.m[0])), W_WITHS, W_RET)
